@@ -106,11 +106,13 @@ claim("C11", "DESIGN.md 5/C11", "Lean theorems on line counting + differential c
       "Theorems in MPilot.C11 state what the line of a token is (1 + line breaks before it, CRLF once, line breaks inside quoted strings counted). Load-time and pre-pass errors carry the line of "
       "the offending command/argument by the definitions proved in C12 (addCommand_errors, prepassCmd_first_error). Every fault kind is injected at a known line; cycles and run-time errors of real bodies are checked too.",
       XB)
-claim("C15", "DESIGN.md 5/C15", "Lean theorems on the serializer's escaping + character-exact correspondence of to_string() + load-back oracle",
-      "Model/Serialize is compared character by character with Program.to_string() on every run. Theorems in MPilot.C15 show that the quoting used by the serializer is inverted by the lexer's string "
-      "decoding (quote_roundtrip) so that every string value - quotes, backslashes before any character, control and non-ASCII characters - reads back exactly. The full statement "
-      "(load (to_string p) = p for whole programs) is decided on the implementation by the round-trip oracle over programs built from source and through add_command: partial as proof.",
-      XB + "Python's repr(float) (shortest digits that read back) is assumed, floats travel as the exact decimal of their repr.")
+claim("C15", "DESIGN.md 5/C15 and 9", "Lean theorems: serialize_parse_roundtrip (whole programs) + quote_roundtrip (every string) + character-exact correspondence of to_string() + load-back oracle",
+      "Theorems: MPilot.C15P.serialize_parse_roundtrip - the text the serializer model writes for a program (commands in order, one argument per line, strings quoted, integers in decimal, references/booleans/None "
+      "as words, lists to any depth) is parsed back as exactly that program: same commands, order, argument names and values, version 3, every node on the line the serializer put it on; built from valSeg/rowSeg/cmdSeg/progSeg "
+      "(the text lexes to the expected tokens: integers via spells_toString_int, strings via MPilot.C15.quote_roundtrip for every string) and C10.program_renders. Outside the theorem: decimals (positional printing) and metadata "
+      "tuples - decided by the correspondence and the round-trip oracle. Model/Serialize is compared character by character with Program.to_string() on every run (programs built from source and through add_command), "
+      "and every serialised program is loaded back and compared argument by argument and by results on the implementation.",
+      XB)
 claim("C16", "DESIGN.md 5/C16", "Lean theorems over tables regenerated from the source (decide) + conversion-rule theorems + whole-pipeline correspondence + hand-mapped equivalence oracle",
       "Generated/Eems2Table.lean and Generated/Decls.lean are rewritten from mpilot.utils.EEMS_COMMANDS and the command registry on every run; table_total_except_known re-proves by kernel "
       "evaluation that every mapped name exists in both library sets (the two ScoreRange rows are the listed known finding, proved missing by scorerange_targets_missing). convertNode_spec, "
